@@ -253,6 +253,7 @@ def check(case):
                 if part and part[0][0] == 'Identifier' and part[0][1] not in const_names:
                     return FAIL('accepted-undeclared-bound', desc + '\nbound identifier %r is not a declared constant' % part[0][1], labels)
         ntemp = 0
+        huge = False
         for root in ast.specs:
             for node in walk(root):
                 if hasattr(node, 'begin') and hasattr(node, 'end'):
@@ -267,13 +268,18 @@ def check(case):
                         e = Fraction(node.end) * U[eu]
                     except Exception:
                         continue
+                    if e > 10 ** 6 * U['s']:
+                        huge = True        # more than a million default sampling periods
                     if not (0 <= b <= e):
                         return FAIL('accepted-bad-interval', desc + '\ninterval [%s%s,%s%s] accepted (needs 0 <= begin <= end)' % (
                             node.begin, node.begin_unit, node.end, node.end_unit), labels)
                 if type(node).__name__ in ('Always', 'Eventually', 'Once', 'Historically', 'Since', 'Until', 'Previous', 'Next',
                                            'StrongPrevious', 'StrongNext', 'Rise', 'Fall') or hasattr(node, 'begin'):
                     ntemp += 1
-        # first evaluation
+        # first evaluation (step (v) is about exception types, not about resources: windows of more than 10^6 samples,
+        # a time-out and an exhausted memory limit are inconclusive)
+        if huge:
+            return PASS(ntemp >= 1, labels + ['huge-bound:evaluate-skipped'])
         names = set()
         for root in ast.specs:
             for node in walk(root):
@@ -286,6 +292,8 @@ def check(case):
             spec.evaluate(ds)
         except _Timeout:
             return DISCARD('timeout', labels + ['TIMEOUT'])
+        except MemoryError:
+            return DISCARD('memory-limit', labels + ['MEMORY'])
         except (ZeroDivisionError, OverflowError):
             return DISCARD('data-fault', labels)
         except ValueError as e:
